@@ -183,7 +183,12 @@ func (dm *DMap) syncPutOnCluster(e *env, nt storage.Entry) error {
 		cmd := protocol.NewPutEntry(dm.name, e.key, encodedEntry).Command(dm.s.ctx)
 		err := rc.Process(dm.s.ctx, cmd)
 		if err != nil {
-			return protocol.ConvertError(err)
+			// An unreachable backup owner does not fail the write while the
+			// quorum can still be reached with the remaining copies.
+			if dm.s.log.V(3).Ok() {
+				dm.s.log.V(3).Printf("[ERROR] Failed to call put command on %s for DMap: %s: %v", owner, e.dmap, err)
+			}
+			continue
 		}
 		err = protocol.ConvertError(cmd.Err())
 		if err != nil {
